@@ -11,6 +11,7 @@ import (
 	"net/http"
 	"net/http/httptest"
 	"reflect"
+	"strconv"
 	"strings"
 	"sync/atomic"
 	"time"
@@ -29,8 +30,20 @@ func init() { streams["C02"] = c02Stream }
 
 type sigRecord struct {
 	signer   int
-	alg, kid string
+	alg, kid string // algorithm used; kid of the protected header that was signed
 	payload  int
+	// filled in by the C02 token builders only (zero values: protected header = {alg, kid}, raw segment not tracked)
+	hdrSet  bool   // the protected header named `halg` (possibly none) instead of `alg`
+	halg    string // alg member of the PROTECTED header the signer signed ("" = absent)
+	hasRaw  bool   // `rawProt` is the protected segment (base64url) the signature covers
+	rawProt string
+}
+
+func (r sigRecord) protAlg() string {
+	if r.hdrSet {
+		return r.halg
+	}
+	return r.alg
 }
 
 type symbols struct {
@@ -61,7 +74,7 @@ func (s *symbols) sign(k *hx.Key, alg, kid string, payload []byte) (string, erro
 	}
 	parts := strings.Split(tok, ".")
 	raw, _ := base64.RawURLEncoding.DecodeString(parts[2])
-	s.sigs[string(raw)] = sigRecord{signer: k.No, alg: alg, kid: kid, payload: s.pid(payload)}
+	s.sigs[string(raw)] = sigRecord{signer: k.No, alg: alg, kid: kid, payload: s.pid(payload), hasRaw: true, rawProt: parts[0]}
 	return tok, nil
 }
 
@@ -80,16 +93,44 @@ func (s *symbols) tokenKV(l *hx.Line, tok string) {
 		}
 	}
 	jws, err := jose.ParseSigned(tok, allAlgs)
+	for try := 0; err != nil && try < 3; try++ {
+		// go-jose refuses a header algorithm outside the list it is given (also the empty one of a signature whose
+		// protected header names none); the oracle wants the structure, the allow-list is the model's business
+		const pre = "go-jose/go-jose: unexpected signature algorithm \""
+		msg := err.Error()
+		if !strings.HasPrefix(msg, pre) {
+			break
+		}
+		rest := msg[len(pre)-1:]
+		end := strings.Index(rest, "; expected")
+		if end < 0 {
+			break
+		}
+		name, uerr := strconv.Unquote(rest[:end])
+		if uerr != nil {
+			break
+		}
+		jws, err = jose.ParseSigned(tok, append(append([]jose.SignatureAlgorithm{}, allAlgs...), jose.SignatureAlgorithm(name)))
+	}
 	if err != nil {
 		l.B("t.jws", false)
 		return
 	}
 	l.B("t.jws", true).I("j.bytes", int64(s.pid(jws.UnsafePayloadWithoutVerification()))).I("j.n", int64(len(jws.Signatures)))
+	raws, rawUnprotKid := c02RawProtected(jws)
 	for i, sg := range jws.Signatures {
 		p := fmt.Sprintf("s%d.", i)
+		// go-jose's three views of the header: merged (protected wins, unprotected fills in), protected, unprotected
 		l.S(p+"alg", sg.Header.Algorithm).S(p+"kid", sg.Header.KeyID)
-		if rec, ok := s.sigs[string(sg.Signature)]; ok {
-			l.I(p+"signer", int64(rec.signer)).S(p+"salg", rec.alg).I(p+"sbytes", int64(rec.payload)).S(p+"shalg", rec.alg).S(p+"shkid", rec.kid)
+		l.S(p+"palg", sg.Protected.Algorithm).S(p+"pkid", sg.Protected.KeyID)
+		l.S(p+"ualg", sg.Unprotected.Algorithm).S(p+"ukid", sg.Unprotected.KeyID)
+		if i < len(rawUnprotKid) && rawUnprotKid[i] != sg.Unprotected.KeyID {
+			// go-jose v4.0.5 does not show (nor merge) the per-signature unprotected header of the GENERAL serialisation
+			l.S(p+"rukid", rawUnprotKid[i])
+		}
+		// a signature term is known only together with the protected segment it was made over
+		if rec, ok := s.sigs[string(sg.Signature)]; ok && (!rec.hasRaw || (i < len(raws) && raws[i] == rec.rawProt)) {
+			l.I(p+"signer", int64(rec.signer)).S(p+"salg", rec.alg).I(p+"sbytes", int64(rec.payload)).S(p+"shalg", rec.protAlg()).S(p+"shkid", rec.kid)
 		}
 	}
 }
@@ -134,26 +175,39 @@ func (s *clientKeyStore) GetKeyByIDAndClientID(_ context.Context, keyID, clientI
 	return nil, errors.New("key not found")
 }
 
-func ksLinePub(l *hx.Line, kind string, keys []pubKey) {
-	l.S("ks.kind", kind).I("ks.n", int64(len(keys)))
+func ksLinePub(l *hx.Line, kind string, keys []pubKey) { ksLinePrefix(l, "ks.", kind, keys) }
+
+func ksLinePrefix(l *hx.Line, pre, kind string, keys []pubKey) {
+	l.S(pre+"kind", kind).I(pre+"n", int64(len(keys)))
 	for i, k := range keys {
-		p := fmt.Sprintf("ks.%d.", i)
+		p := fmt.Sprintf("%s%d.", pre, i)
 		l.S(p+"kid", k.kid).S(p+"use", k.use).S(p+"kty", k.k.Kty).I(p+"no", int64(k.k.No))
 	}
 }
 
-// JWKS endpoint whose content is swapped per case
+// JWKS endpoint whose content is swapped per case; it records what it served (the history the statement's
+// "key set the verifier trusts" refers to for a remote key set: what the endpoint last served)
+type jwksServed struct {
+	body []byte
+	keys []pubKey
+}
+
 type jwksServer struct {
-	srv  *httptest.Server
-	body atomic.Value
+	srv     *httptest.Server
+	body    atomic.Value // jwksServed: what is published now
+	fetches atomic.Int64 // number of requests answered
+	last    atomic.Value // jwksServed: what the last request was answered with
 }
 
 func newJWKSServer() *jwksServer {
 	j := &jwksServer{}
-	j.body.Store([]byte(`{"keys":[]}`))
+	j.body.Store(jwksServed{body: []byte(`{"keys":[]}`)})
 	j.srv = httptest.NewServer(http.HandlerFunc(func(w http.ResponseWriter, r *http.Request) {
+		cur := j.body.Load().(jwksServed)
+		j.last.Store(cur)
+		j.fetches.Add(1)
 		w.Header().Set("content-type", "application/json")
-		w.Write(j.body.Load().([]byte))
+		w.Write(cur.body)
 	}))
 	return j
 }
@@ -163,7 +217,7 @@ func (j *jwksServer) set(keys []pubKey) {
 		set.Keys = append(set.Keys, jose.JSONWebKey{Key: k.k.Pub, KeyID: k.kid, Use: k.use})
 	}
 	b, _ := json.Marshal(set)
-	j.body.Store(b)
+	j.body.Store(jwksServed{body: b, keys: append([]pubKey(nil), keys...)})
 }
 
 func b64(b []byte) string { return base64.RawURLEncoding.EncodeToString(b) }
@@ -242,6 +296,7 @@ func c02Stream(r *hx.Rand, tier string, n int, w *bufio.Writer) map[string]int {
 	kids := []string{"", "a", "b"}
 	uses := []string{"", "sig", "enc"}
 	caseNo := 0
+	env := &c02Env{w: w, sy: sy, jwks: jwks, stats: stats, caseNo: &caseNo}
 
 	// ---------- part 1: oidc.FindMatchingKey directly (exhaustive over small key sets in thorough)
 	shapes := []pubKey{}
@@ -378,104 +433,174 @@ func c02Stream(r *hx.Rand, tier string, n int, w *bufio.Writer) map[string]int {
 		}
 		stats[fmt.Sprintf("mutation-%02d", mut)]++
 
-		l := hx.NewLine("C02").I("case", int64(caseNo)).S("verifier", verifier)
-		caseNo++
-		var gotC *oidc.IDTokenClaims
-		var verr error
-		panicked := false
-		var t0, t1 time.Time
-		call := func(f func()) {
-			t0 = time.Now()
-			func() {
-				defer func() {
-					if p := recover(); p != nil {
-						panicked = true
-					}
-				}()
-				f()
-			}()
-			t1 = time.Now()
-		}
-		switch verifier {
-		case "rp":
-			jwks.set(set)
-			ks := rp.NewRemoteKeySet(http.DefaultClient, jwks.srv.URL)
-			opts := []rp.VerifierOption{rp.WithNonce(nil)}
-			if algs != nil {
-				opts = append(opts, rp.WithSupportedSigningAlgorithms(algs...))
-			}
-			v := rp.NewIDTokenVerifier(issuer, cid, ks, opts...)
-			call(func() { gotC, verr = rp.VerifyIDToken[*oidc.IDTokenClaims](context.Background(), tok, v) })
-			l.S("v.iss", issuer).S("v.cid", cid).I("v.off", int64(time.Second))
-			ksLinePub(l, "published", set)
-		case "at":
-			var o []op.AccessTokenVerifierOpt
-			if algs != nil {
-				o = append(o, op.WithSupportedAccessTokenSigningAlgorithms(algs...))
-			}
-			v := op.NewAccessTokenVerifier(issuer, &op.OpenIDKeySet{Storage: &keyStore{keys: set}}, o...)
-			call(func() { gotC, verr = op.VerifyAccessToken[*oidc.IDTokenClaims](context.Background(), tok, v) })
-			l.S("v.iss", issuer)
-			ksLinePub(l, "published", set)
-		case "hint":
-			var o []op.IDTokenHintVerifierOpt
-			if algs != nil {
-				o = append(o, op.WithSupportedIDTokenHintSigningAlgorithms(algs...))
-			}
-			v := op.NewIDTokenHintVerifier(issuer, &op.OpenIDKeySet{Storage: &keyStore{keys: set}}, o...)
-			call(func() {
-				gotC, verr = op.VerifyIDTokenHint[*oidc.IDTokenClaims](context.Background(), tok, v)
-				var exp op.IDTokenHintExpiredError
-				if verr != nil && errors.As(verr, &exp) && gotC != nil {
-					verr = nil // claims were handed back together with an expiry error
-				}
-			})
-			l.S("v.iss", issuer)
-			ksLinePub(l, "published", set)
-		case "assertion":
-			// registry: the key set belongs to client-A, one more key to client-B
-			st := &clientKeyStore{}
-			for _, k := range set {
-				st.clients = append(st.clients, "client-A")
-				st.keys = append(st.keys, k)
-			}
-			st.clients = append(st.clients, "client-B")
-			st.keys = append(st.keys, pubKey{other, kid, "sig"})
-			var jo []op.JWTProfileVerifierOption
-			if anySubject {
-				jo = append(jo, op.SubjectCheck(func(*oidc.JWTTokenRequest) error { return nil }))
-				l.S("v.subjcheck", "any")
-			}
-			v := op.NewJWTProfileVerifier(st, issuer, time.Hour, time.Second, jo...)
-			var req *oidc.JWTTokenRequest
-			call(func() { req, verr = op.VerifyJWTAssertion(context.Background(), tok, v) })
-			if verr == nil && req != nil {
-				gotC = &oidc.IDTokenClaims{TokenClaims: oidc.TokenClaims{Issuer: req.Issuer, Subject: req.Subject, Audience: req.Audience,
-					Expiration: req.ExpiresAt, IssuedAt: req.IssuedAt}}
-				gotC.AuthorizedParty = cid // not part of JWTTokenRequest: compare as in payload
-			}
-			l.S("v.iss", issuer).I("v.maxiat", int64(time.Hour)).I("v.off", int64(time.Second))
-			l.I("st.n", int64(len(st.keys)))
-			for i := range st.keys {
-				p := fmt.Sprintf("st.%d.", i)
-				l.S(p+"client", st.clients[i]).S(p+"kid", st.keys[i].kid).S(p+"use", st.keys[i].use).S(p+"kty", st.keys[i].k.Kty).I(p+"no", int64(st.keys[i].k.No))
-			}
-		}
-		l.I("now0", t0.UnixNano()).I("now1", t1.UnixNano()).L("v.algs", algs)
-		sy.tokenKV(l, tok)
-		switch {
-		case panicked:
-			l.S("obs", "panic")
-			stats["obs-panic"]++
-		case verr != nil:
-			l.S("obs", "err").S("o.err", hx.ErrName(verr))
-			stats["obs-"+verifier+"-"+hx.ErrName(verr)]++
-		default:
-			l.S("obs", "ok")
-			hx.ClaimsKV(l, "o.", gotC)
-			stats["obs-"+verifier+"-ok"]++
-		}
-		fmt.Fprintln(w, l.String())
+		env.verify(c02Case{verifier: verifier, set: set, algs: algs, tok: tok, anySubject: anySubject, other: other, otherKid: kid})
 	}
+	c02SerialisationStream(r, env, n/2)
+	c02RotationStream(r, env, n/16)
 	return stats
+}
+
+// ---- one verifier call on one serialized token
+
+type c02Env struct {
+	w      *bufio.Writer
+	sy     *symbols
+	jwks   *jwksServer
+	stats  map[string]int
+	caseNo *int
+}
+
+type c02Case struct {
+	verifier   string // rp | at | hint | assertion
+	set        []pubKey
+	algs       []string
+	tok        string
+	anySubject bool    // assertion: custom subject check that permits delegation
+	other      *hx.Key // assertion: the key registered for client-B
+	otherKid   string
+	remote     *c02Remote // rp: a long-lived remote key set (stateful histories); nil = a fresh one per case
+	part       string     // prefix of the statistics keys
+	tags       []string   // extra key/value pairs describing how the case was generated (not read by the driver)
+}
+
+// c02Remote: one rp.NewRemoteKeySet that lives across the steps of a history
+type c02Remote struct {
+	ks         oidc.KeySet
+	lastServed []pubKey // what the JWKS endpoint answered its last request with (nil: never asked)
+}
+
+const c02Issuer, c02ClientID = "https://op.example", "rp-client"
+
+func (e *c02Env) verify(c c02Case) {
+	const issuer, cid = c02Issuer, c02ClientID
+	verifier, set, algs, tok, anySubject := c.verifier, c.set, c.algs, c.tok, c.anySubject
+	l := hx.NewLine("C02").I("case", int64(*e.caseNo)).S("verifier", verifier)
+	*e.caseNo++
+	for i := 0; i+1 < len(c.tags); i += 2 {
+		l.S(c.tags[i], c.tags[i+1])
+	}
+	var gotC *oidc.IDTokenClaims
+	var verr error
+	panicked := false
+	var t0, t1 time.Time
+	call := func(f func()) {
+		t0 = time.Now()
+		func() {
+			defer func() {
+				if p := recover(); p != nil {
+					panicked = true
+				}
+			}()
+			f()
+		}()
+		t1 = time.Now()
+	}
+	switch verifier {
+	case "rp":
+		e.jwks.set(set)
+		var ks oidc.KeySet
+		if c.remote != nil {
+			// a long-lived remote key set: the line carries what the endpoint served it last BEFORE the call (`pre.`),
+			// what is published now (`cur.`) and, as THE key set of the statement, what it was served last (`ks.`)
+			ks = c.remote.ks
+			ksLinePrefix(l, "pre.", "published", c.remote.lastServed)
+			ksLinePrefix(l, "cur.", "published", set)
+			l.S("stateful", "1")
+		} else {
+			ks = rp.NewRemoteKeySet(http.DefaultClient, e.jwks.srv.URL)
+		}
+		opts := []rp.VerifierOption{rp.WithNonce(nil)}
+		if algs != nil {
+			opts = append(opts, rp.WithSupportedSigningAlgorithms(algs...))
+		}
+		v := rp.NewIDTokenVerifier(issuer, cid, ks, opts...)
+		f0 := e.jwks.fetches.Load()
+		call(func() { gotC, verr = rp.VerifyIDToken[*oidc.IDTokenClaims](context.Background(), tok, v) })
+		l.S("v.iss", issuer).S("v.cid", cid).I("v.off", int64(time.Second))
+		if c.remote != nil {
+			fetched := e.jwks.fetches.Load() - f0
+			if fetched > 0 {
+				c.remote.lastServed = e.jwks.last.Load().(jwksServed).keys
+			}
+			l.I("o.fetches", fetched)
+			ksLinePub(l, "published", c.remote.lastServed)
+		} else {
+			ksLinePub(l, "published", set)
+		}
+	case "at":
+		var o []op.AccessTokenVerifierOpt
+		if algs != nil {
+			o = append(o, op.WithSupportedAccessTokenSigningAlgorithms(algs...))
+		}
+		v := op.NewAccessTokenVerifier(issuer, &op.OpenIDKeySet{Storage: &keyStore{keys: set}}, o...)
+		call(func() { gotC, verr = op.VerifyAccessToken[*oidc.IDTokenClaims](context.Background(), tok, v) })
+		l.S("v.iss", issuer)
+		ksLinePub(l, "published", set)
+	case "hint":
+		var o []op.IDTokenHintVerifierOpt
+		if algs != nil {
+			o = append(o, op.WithSupportedIDTokenHintSigningAlgorithms(algs...))
+		}
+		v := op.NewIDTokenHintVerifier(issuer, &op.OpenIDKeySet{Storage: &keyStore{keys: set}}, o...)
+		call(func() {
+			gotC, verr = op.VerifyIDTokenHint[*oidc.IDTokenClaims](context.Background(), tok, v)
+			var exp op.IDTokenHintExpiredError
+			if verr != nil && errors.As(verr, &exp) && gotC != nil {
+				verr = nil // claims were handed back together with an expiry error
+			}
+		})
+		l.S("v.iss", issuer)
+		ksLinePub(l, "published", set)
+	case "assertion":
+		// registry: the key set belongs to client-A, one more key to client-B
+		st := &clientKeyStore{}
+		for _, k := range set {
+			st.clients = append(st.clients, "client-A")
+			st.keys = append(st.keys, k)
+		}
+		st.clients = append(st.clients, "client-B")
+		st.keys = append(st.keys, pubKey{c.other, c.otherKid, "sig"})
+		var jo []op.JWTProfileVerifierOption
+		if anySubject {
+			jo = append(jo, op.SubjectCheck(func(*oidc.JWTTokenRequest) error { return nil }))
+			l.S("v.subjcheck", "any")
+		}
+		v := op.NewJWTProfileVerifier(st, issuer, time.Hour, time.Second, jo...)
+		var req *oidc.JWTTokenRequest
+		call(func() { req, verr = op.VerifyJWTAssertion(context.Background(), tok, v) })
+		if verr == nil && req != nil {
+			gotC = &oidc.IDTokenClaims{TokenClaims: oidc.TokenClaims{Issuer: req.Issuer, Subject: req.Subject, Audience: req.Audience,
+				Expiration: req.ExpiresAt, IssuedAt: req.IssuedAt}}
+			gotC.AuthorizedParty = cid // not part of JWTTokenRequest: compare as in payload
+		}
+		l.S("v.iss", issuer).I("v.maxiat", int64(time.Hour)).I("v.off", int64(time.Second))
+		l.I("st.n", int64(len(st.keys)))
+		for i := range st.keys {
+			p := fmt.Sprintf("st.%d.", i)
+			l.S(p+"client", st.clients[i]).S(p+"kid", st.keys[i].kid).S(p+"use", st.keys[i].use).S(p+"kty", st.keys[i].k.Kty).I(p+"no", int64(st.keys[i].k.No))
+		}
+	}
+	l.I("now0", t0.UnixNano()).I("now1", t1.UnixNano()).L("v.algs", algs)
+	e.sy.tokenKV(l, tok)
+	switch {
+	case panicked:
+		l.S("obs", "panic")
+		e.stats[c.part+"obs-panic"]++
+	case verr != nil:
+		l.S("obs", "err").S("o.err", hx.ErrName(verr))
+		e.stats[c.part+"obs-"+verifier+"-"+hx.ErrName(verr)]++
+	default:
+		l.S("obs", "ok")
+		hx.ClaimsKV(l, "o.", gotC)
+		e.stats[c.part+"obs-"+verifier+"-ok"]++
+	}
+	ls := l.String()
+	if strings.Contains(ls, ".rukid=") {
+		// a general-JSON JWS whose unprotected header names a key id go-jose's Signature.Header does not show
+		e.stats[c.part+"gojose-hides-unprotected-kid"]++
+		if !panicked && verr == nil {
+			e.stats[c.part+"gojose-hides-unprotected-kid-accepted"]++
+		}
+	}
+	fmt.Fprintln(e.w, ls)
 }
